@@ -37,6 +37,13 @@ func (m *MemTable) Put(key, value []byte, seqNum uint64) {
 		return
 	}
 
+	// A put stores a value, possibly an empty one. A nil value reads back as a
+	// deletion marker, while the log records a put of an empty value: the key
+	// would be absent until the next restart and present after it.
+	if value == nil {
+		value = []byte{}
+	}
+
 	e := newEntry(key, value, TypeValue, seqNum)
 	m.skipList.Insert(e)
 
